@@ -468,9 +468,13 @@ type dictGen struct {
 
 func (g *dictGen) freshKey() *big.Int {
 	g.nextK++
-	if g.kk == KInt && g.hugeLeft > 0 && (g.nextK == 2 || g.rng.Chance(1, 14)) {
+	if g.kk.integer() && g.hugeLeft > 0 && (g.nextK == 2 || g.rng.Chance(1, 14)) {
 		g.hugeLeft--
-		return hugeInt(g.rng, g.nextK)
+		z := hugeInt(g.rng, g.nextK)
+		if g.kk == KUInt {
+			z.Abs(z)
+		}
+		return z
 	}
 	if g.kk == KInt {
 		switch g.rng.Intn(30) {
@@ -493,9 +497,13 @@ func (g *dictGen) key(d *odict) *big.Int {
 
 func (g *dictGen) val() *big.Int {
 	g.nextV++
-	if g.vk == KInt && g.hugeLeft > 0 && (g.nextV == 3 || g.rng.Chance(1, 14)) {
+	if g.vk.integer() && g.hugeLeft > 0 && (g.nextV == 3 || g.rng.Chance(1, 14)) {
 		g.hugeLeft--
-		return hugeInt(g.rng, g.nextV)
+		z := hugeInt(g.rng, g.nextV)
+		if g.vk == KUInt {
+			z.Abs(z)
+		}
+		return z
 	}
 	if g.rng.Chance(1, 5) {
 		return bi(1 + int64(g.rng.Intn(int(g.nextV)))) // repeated values
